@@ -740,3 +740,129 @@ func BoltHeaderRef(fr []byte) (pairs []string, accept bool, ok bool) {
 	}
 	return pairs, true, true
 }
+
+// ---------------------------------------------------------------- dubbo attachment grid / tars map grid
+
+// DubboAttachmentGrid yields CONSTRUCTED dubbo requests whose attachment map (the part of the payload the
+// service-aware listeners walk after the arguments) is 'H' + every sequence of at most 3 hessian2 strings
+// whose announced length is one of {0, 1, 2, exactly the remaining bytes (<= 31), remaining+1, 31, a 2-byte
+// length form announcing 5, 'S' announcing 65535} (the relative and absurd ones without own bytes) + {'Z', nothing};
+// no arguments (parameter types ""), so the walk reaches the attachments directly.
+func DubboAttachmentGrid(target string, yield func(Case) bool) bool {
+	type item struct {
+		name string
+		enc  func(rem int) []byte
+	}
+	opts := []item{
+		{"0", func(int) []byte { return []byte{0} }},
+		{"1", func(int) []byte { return []byte{1, 'a'} }},
+		{"2", func(int) []byte { return []byte{2, 'a', 'b'} }},
+		{"rem", func(rem int) []byte { return []byte{byte(rem & 0x1f)} }},
+		{"rem+1", func(rem int) []byte { return []byte{byte((rem + 1) & 0x1f)} }},
+		{"31", func(int) []byte { return []byte{0x1f} }},
+		{"2-byte form 5", func(int) []byte { return []byte{0x30, 0x05} }},
+		{"S 65535", func(int) []byte { return []byte{'S', 0xff, 0xff} }},
+	}
+	prefix := (&hb{}).str("2.0.2").str("com.x.Svc").str("1.0").str("m").str("").b
+	var rec func(names []string, idx []int) bool
+	rec = func(names []string, idx []int) bool {
+		for _, term := range []string{"Z", ""} {
+			// two passes: sizes first (rem = bytes behind the item's length byte up to the end of the payload)
+			sizes := make([]int, len(idx))
+			total := len(term)
+			for i, k := range idx {
+				sizes[i] = len(opts[k].enc(0))
+				total += sizes[i]
+			}
+			body := []byte{'H'}
+			used := 0
+			for i, k := range idx {
+				rem := total - used - 1
+				body = append(body, opts[k].enc(rem)...)
+				used += sizes[i]
+			}
+			body = append(body, term...)
+			pl := append(append([]byte(nil), prefix...), body...)
+			b := []byte{0xda, 0xbb, 0xc2, 0, 0, 0, 0, 0, 0, 0, 0, 9, 0, 0, 0, byte(len(pl))}
+			b = append(b, pl...)
+			if !yield(Case{Target: target, Frame: "constructed attachments", Class: "tablegrid",
+				Desc: fmt.Sprintf("attachments H [%s] %q", strings.Join(names, " "), term), Hex: hex.EncodeToString(b)}) {
+				return false
+			}
+		}
+		if len(idx) == 3 {
+			return true
+		}
+		for k, o := range opts {
+			if !rec(append(names[:len(names):len(names)], o.name), append(idx[:len(idx):len(idx)], k)) {
+				return false
+			}
+		}
+		return true
+	}
+	return rec(nil, nil)
+}
+
+// TarsMapGrid yields CONSTRUCTED tars requests and responses whose two map fields (context tag 9 / status
+// tag 10 of a request; status tag 7 / context tag 9 of a response) are each one of 10 encodings - absent,
+// ZERO size, 1 entry, announced 2 with 1 entry, INT 2^20 with 1 entry, INT -1, SHORT 65535 without entries,
+// key STRING1 announcing one byte more than remains, key STRING4 announcing 2^31-1, entry without value - in
+// the orders {ascending tags, swapped, first map repeated at the end}: tars/decoder.go's checkMapLen /
+// checkVectorLen locate the fields from the start of the packet, the generated ReadFrom walks sequentially.
+func TarsMapGrid(target string, yield func(Case) bool) bool {
+	entry := []byte{0x06, 1, 'k', 0x16, 1, 'v'} // key tag 0 STRING1 "k", value tag 1 STRING1 "v"
+	type enc struct {
+		name string
+		body func(tag byte) []byte
+	}
+	m := func(tag byte, rest ...byte) []byte { return append([]byte{tag<<4 | 0x08}, rest...) }
+	cat := func(a []byte, b ...byte) []byte { return append(append([]byte(nil), a...), b...) }
+	encs := []enc{
+		{"absent", func(byte) []byte { return nil }},
+		{"ZERO size", func(t byte) []byte { return m(t, 0x0c) }},
+		{"1 entry", func(t byte) []byte { return cat(m(t, 0x00, 1), entry...) }},
+		{"size 2, 1 entry", func(t byte) []byte { return cat(m(t, 0x00, 2), entry...) }},
+		{"INT 2^20, 1 entry", func(t byte) []byte { return cat(m(t, 0x02, 0, 0x10, 0, 0), entry...) }},
+		{"INT -1", func(t byte) []byte { return m(t, 0x02, 0xff, 0xff, 0xff, 0xff) }},
+		{"SHORT 65535, no entry", func(t byte) []byte { return m(t, 0x01, 0xff, 0xff) }},
+		{"key announces 200 bytes", func(t byte) []byte { return m(t, 0x00, 1, 0x06, 200, 'k', 0x16, 1, 'v') }},
+		{"key STRING4 2^31-1", func(t byte) []byte { return m(t, 0x00, 1, 0x07, 0x7f, 0xff, 0xff, 0xff, 'k') }},
+		{"entry without value", func(t byte) []byte { return m(t, 0x00, 1, 0x06, 1, 'k') }},
+	}
+	reqHead := []byte{0x10, 0x01, 0x2c, 0x3c, 0x40, 0x07, 0x56, 0x01, 's', 0x66, 0x01, 'f', 0x7d, 0x00, 0x00, 0x01, 0x09, 0x8c} // tags 1-8, sBuffer {9}
+	respHead := []byte{0x10, 0x01, 0x2c, 0x30, 0x07, 0x4c, 0x5c, 0x6d, 0x00, 0x00, 0x01, 0x09}                                  // tags 1-6, sBuffer {9}
+	for _, dir := range []string{"request", "response"} {
+		for i1, e1 := range encs {
+			for i2, e2 := range encs {
+				for _, order := range []string{"ascending", "swapped", "first repeated at the end"} {
+					var body []byte
+					var a, b []byte
+					if dir == "request" {
+						body = append(body, reqHead...)
+						a, b = e1.body(9), e2.body(10)
+					} else {
+						body = append(body, respHead...)
+						a, b = e1.body(7), append([]byte{0x86, 0x02, 'o', 'k'}, e2.body(9)...) // sResultDesc tag 8 sits between the maps
+					}
+					switch order {
+					case "ascending":
+						body = append(append(body, a...), b...)
+					case "swapped":
+						body = append(append(body, b...), a...)
+					default:
+						body = append(append(append(body, a...), b...), a...)
+					}
+					pkt := make([]byte, 4, 4+len(body))
+					binary.BigEndian.PutUint32(pkt, uint32(4+len(body)))
+					pkt = append(pkt, body...)
+					_, _ = i1, i2
+					if !yield(Case{Target: target, Frame: "constructed maps", Class: "tablegrid",
+						Desc: fmt.Sprintf("%s: first map {%s}, second map {%s}, order %s", dir, e1.name, e2.name, order), Hex: hex.EncodeToString(pkt)}) {
+						return false
+					}
+				}
+			}
+		}
+	}
+	return true
+}
